@@ -124,7 +124,198 @@ def split_piece(piece):
 EXPECT_KIND = {'NUMBER': 'NUMBER', 'PGN': 'NUMBER', 'RESERVED': 'VALUE', 'FLOAT': 'FLOAT', 'LOOKUP': 'LOOKUP', 'DATE': 'DATE',
                'TIME': 'TIME', 'DURATION': 'TIME'}
 
+# ---------------------------------------------------------------------------------------------------------------------------------------
+# the payload as bits: whatever the spelling of the assembly (OR of masked and shifted pieces, sums, modulo, struct.pack, joined byte strings),
+# the returned bytes are a vector of bits each of which is a constant or bit k of one producer
+class NotBits(Exception):
+    pass
+
+def _is_producer(t, M):
+    """a term that stands for one field's number: it mentions exactly one get_field_by_id and is not itself arithmetic on such terms"""
+    if t[0] in ('call', 'attr', 'ite', 'sub'):
+        if t[0] == 'call' and t[1][0] == 'attr' and t[1][2] in ('to_bytes', 'join'):
+            return False
+        if t[0] == 'call' and t[1] in (('attr', ('name', 'struct'), 'pack'), ('name', 'bytes'), ('name', 'bytearray'), ('name', 'sum'), ('name', 'int')):
+            if t[1] == ('name', 'int') and len(t[2]) == 1:
+                return len(set(field_refs(t, M))) == 1 and not _arith(t[2][0])
+            return False
+        return len(set(field_refs(t, M))) == 1
+    return False
+
+def _arith(t):
+    return t[0] == 'binop' and t[1] in ('&', '|', '<<', '>>', '+', '%', '*', '^')
+
+def term_int_bits(t, M):
+    """integer term -> list of bits (0 | 1 | (producer term, k)), least significant first; a producer that is not cut to a width has unknown
+    extent: ('open', producer)"""
+    if sym.is_const(t) and isinstance(t[1], int) and not isinstance(t[1], bool) and t[1] >= 0:
+        return [(t[1] >> k) & 1 for k in range(t[1].bit_length())]
+    if _is_producer(t, M):
+        return ('open', t)
+    if t[0] == 'binop':
+        op = t[1]
+        if op in ('&', '%') and (sym.is_const(t[3]) or (op == '&' and sym.is_const(t[2]))):
+            c = t[3][1] if sym.is_const(t[3]) else t[2][1]
+            x = t[2] if sym.is_const(t[3]) else t[3]
+            if not isinstance(c, int) or c < 0:
+                raise NotBits(f"{op} with {c!r}")
+            n = None
+            if op == '&' and (c + 1) & c == 0:
+                n = c.bit_length()
+            if op == '%' and c > 0 and c & (c - 1) == 0:
+                n = c.bit_length() - 1
+            if n is None:
+                raise NotBits(f"{op} with the constant {c}")
+            a = term_int_bits(x, M)
+            if isinstance(a, tuple) and a[0] == 'open':
+                return [(a[1], k) for k in range(n)]
+            return list(a[:n])
+        if op in ('<<', '*') and sym.is_const(t[3]) and isinstance(t[3][1], int):
+            sh = t[3][1] if op == '<<' else (t[3][1].bit_length() - 1 if t[3][1] > 0 and t[3][1] & (t[3][1] - 1) == 0 else None)
+            if sh is None or sh < 0:
+                raise NotBits(f"{op} with the constant {t[3][1]}")
+            a = term_int_bits(t[2], M)
+            if isinstance(a, tuple):
+                raise NotBits('a producer is shifted without being cut to its width')
+            return [0] * sh + list(a)
+        if op == '*' and sym.is_const(t[2]):
+            return term_int_bits(('binop', '*', t[3], t[2]), M)
+        if op in ('>>', '//') and sym.is_const(t[3]) and isinstance(t[3][1], int):
+            sh = t[3][1] if op == '>>' else (t[3][1].bit_length() - 1 if t[3][1] > 0 and t[3][1] & (t[3][1] - 1) == 0 else None)
+            if sh is None:
+                raise NotBits(f"{op} with the constant {t[3][1]}")
+            a = term_int_bits(t[2], M)
+            if isinstance(a, tuple):
+                raise NotBits('a producer is shifted right without a known width')
+            return list(a[sh:])
+        if op in ('|', '+', '^'):
+            a, b = term_int_bits(t[2], M), term_int_bits(t[3], M)
+            if isinstance(a, tuple) or isinstance(b, tuple):
+                raise NotBits('a producer is combined without being cut to its width')
+            n = max(len(a), len(b))
+            a = list(a) + [0] * (n - len(a)); b = list(b) + [0] * (n - len(b))
+            out = []
+            for x, y in zip(a, b):
+                if x == 0: out.append(y)
+                elif y == 0: out.append(x)
+                elif op == '|' and x == y: out.append(x)
+                else:
+                    raise NotBits('two pieces overlap')
+            return out
+    if t[0] == 'call' and t[1] == ('name', 'int') and len(t[2]) == 1:
+        return term_int_bits(t[2][0], M)
+    raise NotBits(show(t)[:80])
+
+def term_bytes_bits(t, M):
+    """bytes-valued term -> (bits of the payload, least significant bit of byte 0 first; number of bytes or None when computed)"""
+    def fit(bits, size, what):
+        if isinstance(bits, tuple):
+            return [(bits[1], k) for k in range(8 * size)]       # the slot itself cuts it (struct.pack / to_bytes raise on a wider value)
+        b = list(bits)
+        while b and b[-1] == 0:
+            b.pop()
+        if len(b) > 8 * size:
+            raise NotBits(f"{len(b)} bits into {what} of {size} byte(s)")
+        return b + [0] * (8 * size - len(b))
+    if t[0] == 'call' and t[1][0] == 'attr' and t[1][2] == 'to_bytes':
+        args, kw = t[2], dict(t[3])
+        ln = args[0] if args else kw.get('length')
+        bo = kw.get('byteorder', args[1] if len(args) > 1 else None)
+        if bo not in (C('little'), C('big')):
+            raise NotBits('byte order of to_bytes')
+        ib = term_int_bits(t[1][1], M)
+        if not (ln is not None and sym.is_const(ln) and isinstance(ln[1], int)):
+            if isinstance(ib, tuple) or bo != C('little'):
+                raise NotBits('computed length')
+            return list(ib), None
+        bits = fit(ib, ln[1], 'to_bytes')
+        if bo == C('big'):
+            bits = [b for i in reversed(range(ln[1])) for b in bits[8 * i: 8 * i + 8]]
+        return bits, ln[1]
+    if t[0] == 'call' and t[1] == ('attr', ('name', 'struct'), 'pack') and t[2] and sym.is_const(t[2][0]) and isinstance(t[2][0][1], str) and not t[3]:
+        from .absint import _struct_fmt
+        sf = _struct_fmt(t[2][0][1])
+        if sf is None:
+            raise NotBits(f"struct format {t[2][0][1]!r}")
+        order, fields = sf
+        vals = list(t[2][1:])
+        if len(vals) != sum(1 for sz, k in fields if k != 'pad'):
+            raise NotBits('struct.pack argument count')
+        bits = []
+        vi = 0
+        for size, kind in fields:
+            if kind == 'pad':
+                bits += [0] * 8; continue
+            if kind not in ('int',):
+                raise NotBits(f"struct code of kind {kind}")
+            fb = fit(term_int_bits(vals[vi], M), size, 'a struct field'); vi += 1
+            if order == 'big':
+                fb = [b for i in reversed(range(size)) for b in fb[8 * i: 8 * i + 8]]
+            bits += fb
+        return bits, len(bits) // 8
+    if t[0] == 'call' and t[1] in (('name', 'bytes'), ('name', 'bytearray')) and len(t[2]) == 1 and t[2][0][0] in ('list', 'tuple'):
+        bits = []
+        for x in t[2][0][1]:
+            bits += fit(term_int_bits(x, M), 1, 'a byte')
+        return bits, len(bits) // 8
+    if t[0] == 'call' and t[1][0] == 'attr' and t[1][2] == 'join' and t[1][1] in (C(b''),) and len(t[2]) == 1 and t[2][0][0] in ('list', 'tuple'):
+        bits = []
+        for x in t[2][0][1]:
+            b, n = term_bytes_bits(x, M)
+            if n is None:
+                raise NotBits('a part of unknown length is joined')
+            bits += b
+        return bits, len(bits) // 8
+    if t[0] == 'binop' and t[1] == '+':
+        a, na = term_bytes_bits(t[2], M); b, nb = term_bytes_bits(t[3], M)
+        if na is None or nb is None:
+            raise NotBits('parts of unknown length are concatenated')
+        return a + b, na + nb
+    if sym.is_const(t) and isinstance(t[1], bytes):
+        return [(byte >> k) & 1 for byte in t[1] for k in range(8)], len(t[1])
+    raise NotBits(show(t)[:80])
+
+def rows_from_bits(bits, M):
+    """maximal runs of one producer's bits 0..n-1 -> rows like the OR-piece rows (cls, mask, shift, V); None when a run does not start at the producer's bit 0"""
+    rows = []
+    i = 0
+    while i < len(bits):
+        b = bits[i]
+        if b in (0, 1):
+            i += 1
+            continue
+        V, k0 = b
+        j = i
+        while j < len(bits) and isinstance(bits[j], tuple) and bits[j][0] == V and bits[j][1] == k0 + (j - i):
+            j += 1
+        if k0 != 0:
+            raise NotBits('a field is written from a bit other than its lowest')
+        rows.append({'cls': classify(V, M), 'mask': (1 << (j - i)) - 1, 'shift': i, 'piece': V, 'V': V})
+        i = j
+    if any(b == 1 for b in bits):
+        raise NotBits('constant one bits in the payload')
+    return rows
+
 def encoder_rows(program, d):
+    """-> (table, rows, return term, serialisation facts).  rows = list of dict(cls, mask, shift, piece, V); None if the encoder does not return bytes
+    that can be read as bits of producers"""
+    t, rows, r = _encoder_rows_or(program, d)
+    if t is None or t.ret is None:
+        return t, rows, r
+    M = ('param', t.param)
+    need = rows is None or len(rows) != len(d.fields) or any(row['mask'] is None or row['cls']['kind'] == '?' for row in rows)
+    if need:
+        try:
+            bits, nbytes = term_bytes_bits(t.ret[1], M)
+            rows2 = rows_from_bits(bits, M)
+        except NotBits as nb:
+            t.not_bits = str(nb)
+            return t, rows, r
+        t.semantic_layout = {'nbytes': nbytes, 'bits': len(bits)}
+        return t, rows2, ('semantic', nbytes)
+    return t, rows, r
+
+def _encoder_rows_or(program, d):
     """-> (table, rows) rows = list of dict(cls, mask, shift, piece) or None if the encoder has no to_bytes return"""
     tabs = encoder_tables(program)
     fname = encoder_name(d)
@@ -169,6 +360,10 @@ def gen_enc(chk, program, rule='GEN-ENC', mask_rule='ENC-MASK', want=('table', '
             continue
         nenc += 1
         t, rows, r = encoder_rows(program, d)
+        if rows is None and t.ret is not None and getattr(t, 'not_bits', None):
+            if 'table' in want:
+                chk.unknown(rule, f"{fname}::returns", f"the returned bytes are neither <int>.to_bytes(..) of OR-ed pieces nor readable as bits of producers: {t.not_bits}", PG, line)
+            continue
         if rows is None:
             if 'table' in want:
                 chk.violation(rule, f"{fname}::returns", file=PG, line=line, func=fname,
@@ -176,7 +371,13 @@ def gen_enc(chk, program, rule='GEN-ENC', mask_rule='ENC-MASK', want=('table', '
                               found=show(r) if r else ('raises' if t.raises else 'no return'),
                               detail=f"definition {d.key} is encodable by the database but the encoder does not produce bytes")
             continue
-        if 'table' in want:
+        if 'table' in want and r[0] == 'semantic':
+            # another spelling of the assembly: read as bits (little-endian payload order is part of that reading)
+            if d.length is not None:
+                chk.check(r[1] == d.length, rule, f"{fname}::to_bytes.length", file=PG, line=t.ret[2], func=fname, expected=d.length, found=r[1])
+            chk.ok(rule, f"{fname}::to_bytes.byteorder", file=PG, line=t.ret[2], func=fname, found='payload read as bits, byte 0 first')
+            chk.check(len(rows) == len(d.fields), rule, f"{fname}::piece-count", file=PG, line=line, func=fname, expected=len(d.fields), found=len(rows))
+        elif 'table' in want:
             # serialisation
             targs = r[2]; tk = dict(r[3])
             bo = tk.get('byteorder', targs[1] if len(targs) > 1 else None)
